@@ -194,6 +194,15 @@ def run(ctx: Ctx):
     from .. import editscorr
     editscorr.check_part(ctx, "C18", progs, outs)
     ctx.sample({"program_tail": progs[0]["source"][-500:], "flags": progs[0]["flags"], "replacements": outs[0]["replacements"]})
+    # the documented in-process helper Example.run_inline on containers that several approved categories edit at once (multi-line, trailing comma; nested snapshot in a
+    # replaced element): the edits of one container are merged into one, nothing overlaps
+    for (src, fl), o in zip(EXAMPLE_CORPUS, pmap(run_example, EXAMPLE_CORPUS, chunksize=1)):
+        ctx.count(("example", src, tuple(fl)), True)
+        if o["exc"]:
+            ctx.report(f"Example.run_inline({fl}) raised {o['exc']}", {"kind": "example", "source": src, "flags": fl})
+        elif o["syntax"]:
+            ctx.report(f"Example.run_inline({fl}) wrote an invalid file: {o['syntax']}", {"kind": "example", "source": src, "flags": fl, "after": o["after"]})
+    ctx.coverage["oracle"]["example_run_inline_cases"] = len(EXAMPLE_CORPUS)
     # real sessions
     m = 64 if not ctx.thorough else 800
     items = []
@@ -235,7 +244,42 @@ def run(ctx: Ctx):
     twins.check(ctx, "C18", [NESTED] + [s_ for s_, _ in items[:2 if not ctx.thorough else 12]])
 
 
+_EH = "from dataclasses import dataclass\nfrom inline_snapshot import snapshot\n\n\n@dataclass\nclass DC:\n    a: int\n    b: int = 0\n    c: int = 0\n\n\n"
+EXAMPLE_CORPUS = [
+    (_EH + "def test_a():\n    for x in (1, 5):\n        assert x in snapshot(\n            [\n                1,\n                2,\n            ]\n        )\n", ["fix", "trim"]),
+    (_EH + "def test_a():\n    s = snapshot(\n        {\n            'a': 1,\n            'unused': 2,\n        }\n    )\n    assert s['a'] == 1\n    assert s['b'] == 3\n", ["create", "trim"]),
+    (_EH + "def test_a():\n    assert DC(a=1, c=3) == snapshot(\n        DC(\n            a=1,\n            b=0,\n        )\n    )\n", ["fix", "update"]),
+    (_EH + "def test_a():\n    assert [5] == snapshot([snapshot(0x10), 2])\n", ["fix", "update"]),
+    (_EH + "def test_a():\n    assert {'k': [1, 2]} == snapshot(\n        {\n            'k': [\n                1,\n                3,\n            ],\n            'gone': snapshot(0o7),\n        }\n    )\n", ["fix", "update"]),
+    (_EH + "def test_a():\n    for x in (1, 5):\n        assert x in snapshot(\n            [\n                0o1,\n                2,\n            ]\n        )\n", ["fix", "trim", "update"]),
+]
+
+
+def run_example(item):
+    src, fl = item
+    import contextlib
+    import io
+    from inline_snapshot.testing import Example
+    out = {"exc": None, "syntax": None, "after": None}
+    try:
+        with contextlib.redirect_stdout(io.StringIO()), contextlib.redirect_stderr(io.StringIO()):
+            e = Example({"test_a.py": src}).run_inline(["--inline-snapshot=" + ",".join(fl)])
+        out["after"] = e.files["test_a.py"] if hasattr(e, "files") else None
+        if out["after"] is not None:
+            try:
+                compile(out["after"], "<after>", "exec")
+            except SyntaxError as ex:
+                out["syntax"] = str(ex)
+    except BaseException as ex:  # noqa
+        out["exc"] = f"{type(ex).__name__}: {str(ex)[:300]}"
+    return out
+
+
 def replay(ctx: Ctx, data):
+    if isinstance(data.get("case"), dict) and data["case"].get("kind") == "example":
+        o = run_example((data["case"]["source"], data["case"]["flags"]))
+        print(o)
+        return not (o["exc"] or o["syntax"])
     if isinstance(data.get("case"), dict) and data["case"].get("kind") == "twins":
         from .. import twins
         return twins.replay(data["case"])
